@@ -300,6 +300,9 @@ EDGES = [
     "int f(void) __asm__(\"g\"); int f(void);", "int x __asm__(\"y\"); int x __asm__(\"z\");", "extern int x __asm__(\"y\"); int x = 1; int x __asm__(\"y\");", "void h(void){ extern int q; { extern int q __asm__(\"r\"); } }",
     "int f(void); void h(void){ int f(void) __asm__(\"g\"); }", "static int s; static int s __asm__(\"t\");", "int x __asm__(\"\"); int y __asm__(\"a b\"); int z __asm__(\"\\\"\");",
     "enum E; enum E x; int y;", "enum E *p; enum E v;", "void f(void){ enum F; enum F w; }", "struct S; struct S x;", "union U y; union U;",
+    # labels: defined twice, used and never defined, spelled through macros (one spelling object shared by all uses)
+    "void f(void){done: ; goto done; done: ;}", "#define FAIL out\nint f(int x){if (x) goto FAIL; if (x > 1) goto FAIL; return 0; FAIL: return 1;}", "#define L lab\nvoid f(void){L: ; L: ;}",
+    "#define L lab\nvoid f(void){goto L; goto L;}", "void f(void){goto a; goto b; a: goto b;}", "#define M(x) x: goto x;\nvoid f(void){M(p) M(q) M(p)}",
     "static int x = 1/0;", "static int x = 1%0;", "static unsigned x = 1u/0u;", "static unsigned long x = 1ul%0ul;",
     "void f(int a){switch(a){case 1/0:;}}", "enum e {A = 1/0};", "int a[1/0];", "struct s {int x:1/0;};",
     "static int x = (-2147483647-1)/-1;", "static int x = (-2147483647-1)%-1;",
